@@ -49,6 +49,15 @@ use std::sync::atomic::{AtomicUsize, Ordering};
 use std::sync::{Arc, Mutex, MutexGuard};
 pub use traits::*;
 
+/// Converts the character offset of a client position into a byte index into `line`. An offset beyond the end of the
+/// line is the end of the line.
+pub(crate) fn character_to_byte_index(line: &str, character: usize) -> usize {
+    line.char_indices()
+        .nth(character)
+        .map(|(idx, _)| idx)
+        .unwrap_or_else(|| line.len())
+}
+
 fn to_line_col(pos: &lsp_types::Position) -> LineCol {
     LineCol {
         line: pos.line as usize,
